@@ -2,7 +2,7 @@
 import re
 import symex
 from symex import strip, show, is_call, field_path, mentions, linear
-from props import evalcore as E, lifecycle as L, builder as B
+from props import evalcore as E, lifecycle as L, builder as B, outputs
 from props.c10 import position_is_rmw
 from props.util import configs, load
 
@@ -22,6 +22,8 @@ def run(chk, tier):
         position_is_rmw(chk, F, 'R02.3', cfg)
         segment_lookup(chk, F, 'R02.4', cfg)
         E.eval_table(chk, F, 'R02.5', cfg)
+        # single-use half (= C12's R12.3): composite kinds turn an exhausted leaf into `no value`, never into a value
+        outputs.variant_maps(chk, F, 'R02.6', cfg)
 
 
 def segment_lookup(chk, F, rule, cfg):
